@@ -45,6 +45,9 @@ impl FencedString {
     }
 
     pub(crate) fn substring(&self, start: usize, end: Option<usize>) -> Self {
+        // out-of-range bounds are clamped: start to the length, end to [start, length]
+        let start = start.min(self.len());
+        let end = end.map(|e| e.max(start));
         if self.char_starts.is_empty() {
             Self {
                 buffer: (match end {
@@ -53,6 +56,8 @@ impl FencedString {
                 }),
                 char_starts: Vec::new(),
             }
+        } else if start == self.len() {
+            Self::default()
         } else {
             let start_byte = self.char_starts[start];
             let end_byte = end.and_then(|e| self.char_starts.get(e)).cloned();
@@ -77,11 +82,15 @@ impl FencedString {
     }
 
     pub(crate) fn substr(&self, start: usize, end: Option<usize>) -> &str {
+        let start = start.min(self.len());
+        let end = end.map(|e| e.max(start));
         if self.char_starts.is_empty() {
             match end {
                 Some(end) if end < self.len() => &self.buffer[start..end],
                 _ => &self.buffer[start..],
             }
+        } else if start == self.len() {
+            ""
         } else {
             let start_byte = self.char_starts[start];
             let end_byte = end.and_then(|e| self.char_starts.get(e)).cloned();
